@@ -33,6 +33,10 @@ def main(argv=None):
 
         if not setup.ensure_deps():
             return 2
+        import importlib
+
+        sys.path_importer_cache.pop(deps, None)  # the directory did not exist when it was put on sys.path
+        importlib.invalidate_caches()
     if a.cmd == "check":
         from vtk import runner
 
